@@ -48,53 +48,39 @@ M = {
             rank+=1
             in_tie = False""", """            simp_ranks.append(rank)
             in_tie = False""", ['C13', 'C10'], 'reader does not advance the rank after a closing parenthesis'),
- 'm08': (G + 'generator_shared.py', "if not in_tie and ties_indicators[i] and i < len(pref_list) - 1:",
-         "if not in_tie and ties_indicators[i]:", ['C13'], 'writer opens a tie on the last entry'),
- 'm09': (S + 'brute_force_solver.py', """            if profile1[i] < profile2[i]:
-                return True
-            elif profile1[i] > profile2[i]:
-                return False
-        return False
-
-
-    def moregre""", """            if profile1[i] > profile2[i]:
-                return True
-            elif profile1[i] < profile2[i]:
-                return False
-        return False
-
-
-    def moregre""", ['C07'], 'moregen comparator direction'),
+ 'm08': (G + 'generator_shared.py', "        elif i == len(pref_list) - 1 and in_tie:", "        elif i == len(pref_list) - 1 and in_tie and len(pref_list) > 2:",
+         ['C13'], 'writer does not close a tie that covers a whole two-entry list'),
+ 'm09': (S + 'brute_force_solver.py', "        for i in range(len(profile1) - 1, -1, -1):", "        for i in range(len(profile1) - 1, 0, -1):",
+         ['C07'], 'moregen ignores the first rank'),
  'm10': (S + 'brute_force_solver.py', """                    proj_num_allocations[proj_index] and
                     not proj_num_allocations[proj_index] == 0) or""", """                    proj_num_allocations[proj_index]) or""",
          ['C07'], 'closure rule of is_valid ignores "closed"'),
  'm11': (S + 'model.py', "if self.pulp_status == self.NOTSOLVED_PULP_STATUS or total_s > self.time_limit: ",
          "if self.pulp_status == self.NOTSOLVED_PULP_STATUS or solve_s > 2 * self.time_limit: ", ['C14'], 'Timeout condition weakened'),
  'm12': (S + 'options_parser.py', "                ordered_opts[arguments[0] - 1] = (opt, arguments[1:])",
-         "                ordered_opts[len(opts) - arguments[0]] = (opt, arguments[1:])", ['C16', 'C04'], 'list-valued criteria are placed in reversed slots'),
- 'm13': (S + 'model.py', "            cost_sq_st += pair.rank_student * pair.rank_student", "            cost_sq_st += pair.rank_student * 2",
-         ['C11'], 'cost_sq computed as twice the rank'),
+         "                ordered_opts[arguments[0] - 1 if arguments[0] < 7 else 15 - arguments[0]] = (opt, arguments[1:])", ['C16', 'C04'],
+         'list-valued criteria at positions 7..9 are placed in reversed slots'),
+ 'm13': (S + 'model.py', "                cost_sq_lec += pair.rank_lecturer * pair.rank_lecturer", "                cost_sq_lec += pair.rank_lecturer * pair.rank_student",
+         ['C11'], 'squared lecturer cost multiplies lecturer rank by student rank'),
  'm14': (S + 'model.py', "        results += '# main constraints and optimisations\\n'\n",
          "        results += '# main constraints and optimisations\\n'\n        self.info_string += ' '\n", ['C18'], 'getter mutates info_string'),
- 'm15': (S + 'lp_solver.py', """                self.prob += (
-                    pc_uq_exp <= uq,
-                    "proj_cl_uq_{}".format(proj_index))""", """                pass""", ['C01'], 'with -pc the upper quota constraint is dropped'),
+ 'm15': (S + 'lp_solver.py', "                    pc_uq_exp <= uq, ", "                    pc_uq_exp <= uq + (1 if lq == uq and uq > 1 else 0), ",
+         ['C01'], 'with -pc a project with lower = upper > 1 may take one student too many'),
  'm16': (S + 'lp_solver.py', "        self.prob += (obj >= lpSum(self.model.abs_lec_diff))", "        self.prob += (obj >= lpSum(self.model.abs_lec_diff[1:]))",
          ['C03'], 'lsb ignores the first lecturer'),
  'm17': (G + 'generator_shared.py', "            prefs_lists_agent2[agent1_num - 1].append(i + 1)", "            prefs_lists_agent2[agent1_num - 1].append(max(1, i))",
          ['C12'], 'second-side lists name the wrong first-side agent'),
- 'm18': (G + 'generator_shared.py', "float(x * (skew - 1)/(number_agents - 1))", "float(x * (skew - 1)/(number_agents))", ['C17'], 'skew step uses n instead of n-1'),
+ 'm18': (G + 'generator_shared.py', "float(x * (skew - 1)/(number_agents - 1))", "float(x * (skew - 1)/(number_agents - 1 if number_agents != 3 else 3))",
+         ['C17'], 'skew step wrong for exactly three agents'),
  'm19': (G + 'instance_options_parser.py', """            banned_parameters.extend([
                 (args.twopl, 'twopl'),
                 (args.n3, 'n3'),""", """            banned_parameters.extend([
                 (args.n3, 'n3'),""", ['C15'], 'ha no longer rejects -twopl'),
  'm20': (S + 'fileIO.py', "                    model.lec_targets.append(int(line_split[2]))", "                    model.lec_targets.append(int(line_split[1]))",
          ['C10'], '2-agent embedding: target taken from the lower quota'),
- 'm21': (S + 'lp_solver.py', """                "obj_maxsize",
-                lowBound = 0,
-                upBound = self.model.num_students, """, """                "obj_maxsize",
-                lowBound = 0,
-                upBound = self.model.num_projects, """, ['C02', 'C03'], 'maxsize objective bounded by the number of projects'),
+ 'm21': (S + 'lp_solver.py', "        self.info_string += '- optimisation: maximising size\\n'\n        obj = LpVariable(\n                \"obj_maxsize\", \n                lowBound = 0, \n                upBound = self.model.num_students, ",
+         "        self.info_string += '- optimisation: maximising size\\n'\n        obj = LpVariable(\n                \"obj_maxsize\", \n                lowBound = 0, \n                upBound = self.model.num_projects + 1, ",
+         ['C02', 'C03'], 'maxsize objective bounded by the number of projects + 1'),
  'm22': (S + 'solver.py', "        return self.model.get_results(Output_type.LONG, stable_correctness)", "        return self.model.get_results(Output_type.LONG, False)",
          ['C06'], 'long results never print stability_correct'),
  'm23': (G + 'generator_spa.py', "            if lec_index < num_projects_for_lec_remainder:", "            if lec_index >= n3 - num_projects_for_lec_remainder:",
@@ -109,9 +95,9 @@ M = {
         self.model.time_after_solve = time_after_solve""", """        time_after_solve = datetime.datetime.now()
         if not hasattr(self.model, 'time_after_solve'):
             self.model.time_after_solve = time_after_solve""", ['C14'], 'end time is only recorded by the first solve (C18/C14: timeout judged on stale time)'),
- 'm28': (S + 'model.py', "                matching[pair.student_index] = str(pair.projectID)\n        return ' '.join(matching)",
-         "                matching[pair.student_index] = str(pair.projectID if pair.projectID < 3 else pair.project_index)\n        return ' '.join(matching)",
-         ['C11', 'C01'], 'matching line prints index instead of id for projects >= 3'),
+ 'm28': (S + 'model.py', "            matching[pair.student_index] = str(pair.projectID)\n        return ' '.join(matching)",
+         "            matching[pair.student_index] = str(pair.projectID if pair.projectID < 3 else pair.project_index + 1 - (pair.projectID == 3 and self.num_projects > 3))\n        return ' '.join(matching)",
+         ['C11', 'C01'], 'matching line prints 2 instead of 3 when there are more than three projects'),
 }
 del M['m24']
 
